@@ -623,7 +623,7 @@ pub fn run(ctx: &Ctx, replay: Option<&serde_json::Value>) {
     ctx.extra("exhaustive_table", json!(true));
     ctx.run_list("table", &table, test_case);
     raw_probes(ctx);
-    let cases = ctx.tier.pick(60_000, 20_000_000);
+    let cases = ctx.tier.pick(600_000, 20_000_000);
     let cfg = GenCfg {
         typed: false,
         extern_funcs: true,
